@@ -519,6 +519,10 @@ func AddOption(selector Selector, newOption veneers.Option) RewriteRule {
 				return nil, fmt.Errorf("could not apply AddOption builder veneer: %w", err)
 			}
 
+			// a copy: the arguments and comments come from the rule's own
+			// configuration, which later rules (rename_arguments, add_comments...)
+			// would otherwise rewrite for every later use of this rule
+			newOpt = newOpt.DeepCopy()
 			newOpt.AddToVeneerTrail("AddOption")
 			builders[i].Options = append(builders[i].Options, newOpt)
 		}
@@ -541,7 +545,7 @@ func AddFactory(selector Selector, factory ast.BuilderFactory) RewriteRule {
 				return nil, fmt.Errorf("could not apply AddFactory builder veneer: builder factories can not be defined on builders that accept parameters in their constructor")
 			}
 
-			builders[i].Factories = append(builders[i].Factories, factory)
+			builders[i].Factories = append(builders[i].Factories, factory.DeepCopy())
 		}
 
 		return builders, nil
